@@ -12,7 +12,7 @@ os.makedirs(VD,exist_ok=True)
 shutil.copy('/verif/known_findings.json',VD)
 def violated(sha):
     sh('git','-C',WT,'checkout','-q','--detach',sha)
-    sh('/verif/bin/xselcheck','-property','all','-repo',WT,'-verif',VD)
+    sh('/tmp/bisect_xselcheck','-property','all','-repo',WT,'-verif',VD)
     out={}
     for f in sorted(os.listdir(VD+'/evidence')):
         if not f.endswith('.json'): continue
